@@ -3,7 +3,7 @@ decoding of the draws the implementation consumed, the matching model operation 
 of both sides.  Used by C01–C06 and C16."""
 from fractions import Fraction as Fr
 import numpy as np
-from .common import guarded, rat, rats, ints, rows, rows3, frac, fracs, fields, close, numerator_of, F
+from .common import guarded, rat, rats, ints, rows, rows3, frac, fracs, fields, close, numerator_of, F, POOL
 from .prng import RecSHA256, RecRandomState, Draws
 
 ALTS = ["greater", "less", "two-sided"]
@@ -101,12 +101,48 @@ class Problem(Exception):
     pass
 
 
+LABEL_KINDS = ["int", "int", "float-frac", "neg", "str", "float-whole"]
+
+
+def enc(p, key):
+    """label array for the integer codes p[key]; every encoding is order preserving, so np.unique visits
+    the strata in the order of the codes the model sees"""
+    kind = p.get("lab", "int")
+    codes = p[key]
+    if kind == "float-frac":
+        vals = [0.25 + 0.5 * c for c in codes]          # distinct labels sharing an integer part
+    elif kind == "float-whole":
+        vals = [float(c) for c in codes]
+    elif kind == "neg":
+        vals = [7 * c - 10 for c in codes]              # negative, non-contiguous integers
+    elif kind == "str":
+        vals = ["g%02d" % c for c in codes]
+    else:
+        vals = list(codes)
+    return POOL.get("lab-" + key, vals)
+
+
+def dec(p, a):
+    kind = p.get("lab", "int")
+    out = []
+    for v in np.asarray(a).tolist():
+        if kind == "float-frac":
+            out.append(int(round((v - 0.25) / 0.5)))
+        elif kind == "neg":
+            out.append(int(round((v + 10) / 7)))
+        elif kind == "str":
+            out.append(int(v[1:]))
+        else:
+            out.append(int(v))
+    return out
+
+
 def arr(p, key):
     """the caller's array for p[key]: float64, or int64 when requested and every value is integral"""
     v = p[key]
     if p.get("intdtype") and all(float(t).is_integer() and abs(t) < 2**40 for t in v):
-        return np.array([int(t) for t in v], dtype=np.int64)
-    return np.array(v)
+        return POOL.get(key, [int(t) for t in v], np.int64)
+    return POOL.get(key, v, float)
 
 
 def _const(a):
@@ -472,11 +508,11 @@ class KSample(Fn):
         seen = []
         kind = p.get("ret", "np")
         def f(x, g, xbar):
-            seen.append((np.array(x, dtype=float).copy(), np.array(g).copy(), float(xbar)))
-            val = float(np.dot(x, g))
+            seen.append((np.array(x, dtype=float).copy(), np.array(dec(p, g)), float(xbar)))
+            val = float(np.dot(x, dec(p, g)))
             return {"np": np.float64(val), "float": val, "int": int(val) if val.is_integer() else val}[kind]
         st = f if p["stat"] == "callable" else "one-way anova"
-        r = guarded(ksample.k_sample, arr(p, "x"), np.array(p["group"]), reps=p["reps"], stat=st, keep_dist=p["keep"],
+        r = guarded(ksample.k_sample, arr(p, "x"), enc(p, "group"), reps=p["reps"], stat=st, keep_dist=p["keep"],
                     seed=prng, plus1=p["plus1"])
         return r, seen
 
@@ -540,10 +576,10 @@ class Bivariate(Fn):
         from permute import ksample
         seen = []
         def f(x, g1, g2, xbar):
-            seen.append((np.array(x, dtype=float).copy(), np.array(g1).copy(), np.array(g2).copy(), float(xbar)))
-            return np.float64(np.dot(x, g2))
+            seen.append((np.array(x, dtype=float).copy(), np.array(dec(p, g1)), np.array(dec(p, g2)), float(xbar)))
+            return np.float64(np.dot(x, dec(p, g2)))
         st = f if p["stat"] == "callable" else "two-way anova"
-        r = guarded(ksample.bivariate_k_sample, np.array(p["x"]), np.array(p["g1"]), np.array(p["g2"]), reps=p["reps"], stat=st,
+        r = guarded(ksample.bivariate_k_sample, arr(p, "x"), enc(p, "g1"), enc(p, "g2"), reps=p["reps"], stat=st,
                     keep_dist=p["keep"], seed=prng, plus1=p["plus1"])
         return r, seen
 
@@ -639,10 +675,10 @@ class StratPerm(Fn):
         seen = []
         w = np.array(p["resp"], dtype=float)
         def f(u):
-            seen.append(np.array(u).copy())
-            return np.float64(np.dot(w, u))
+            seen.append(np.array(dec(p, u)))
+            return np.float64(np.dot(w, dec(p, u)))
         st = f if p["stat"] == "callable" else "mean"
-        r = guarded(stratified.stratified_permutationtest, np.array(p["group"]), np.array(p["cond"]), arr(p, "resp"),
+        r = guarded(stratified.stratified_permutationtest, enc(p, "group"), enc(p, "cond"), arr(p, "resp"),
                     alternative=p["alt"], reps=p["reps"], testStatistic=st, seed=prng, plus1=p["plus1"])
         return r, seen
 
@@ -702,7 +738,7 @@ class SimCorr(Fn):
 
     def call(self, p, prng):
         from permute import stratified
-        r = guarded(stratified.sim_corr, np.array(p["x"]), np.array(p["y"]), np.array(p["group"]), reps=p["reps"],
+        r = guarded(stratified.sim_corr, arr(p, "x"), arr(p, "y"), enc(p, "group"), reps=p["reps"],
                     alternative=p["alt"], seed=prng, plus1=p["plus1"])
         return r, []
 
@@ -765,7 +801,7 @@ class StratTwoSample(Fn):
             val = float(np.dot(w, u))
             return {"np": np.float64(val), "float": val, "int": int(val) if val.is_integer() else val}[kind]
         st = f if p["stat"] == "callable" else p["stat"]
-        r = guarded(stratified.stratified_two_sample, np.array(p["group"]), np.array(p["cond"]), arr(p, "resp"), stat=st,
+        r = guarded(stratified.stratified_two_sample, enc(p, "group"), POOL.get("cond", p["cond"]), arr(p, "resp"), stat=st,
                     alternative=p["alt"], reps=p["reps"], keep_dist=p["keep"], seed=prng, plus1=p["plus1"])
         return r, seen
 
@@ -848,17 +884,46 @@ UNSTRAT = ["two_sample", "two_sample_shift", "one_sample", "corr", "spearman_cor
 STRAT = ["stratified_permutationtest", "stratified_two_sample", "sim_corr", "bivariate_k_sample"]
 
 
-def run_recorded(ctx, names, per_fn, site_prefix=""):
+def reuse_sequence(fn, rng, length=5):
+    """parameter sets of identical shapes, dtypes and label sets but different contents: with the buffer pool
+    the implementation sees the very same ndarray objects refilled in place between calls"""
+    base = fn.gen(rng)
+    base["ret"] = "np"; base["intdtype"] = False; base["lab"] = rng.choice(LABEL_KINDS); base["scale"] = 1.0
+    out = []
+    for _ in range(length):
+        q = dict(base)
+        n = None
+        for keys in (("group", "cond"), ("g1", "g2")):
+            if keys[0] in q:
+                n = len(q[keys[0]])
+                perm = list(range(n)); rng.shuffle(perm)
+                for k in keys:
+                    if k in q:
+                        q[k] = [q[k][i] for i in perm]
+        for k in ("x", "y", "resp"):
+            if q.get(k) is not None:
+                v = list(q[k]); rng.shuffle(v); q[k] = v
+        q["fixed"] = True
+        out.append(q)
+    return out
+
+
+def run_recorded(ctx, names, per_fn, site_prefix="", presets=None):
     """recorded-draw correspondence for the named functions; returns (ops, meta) pending model run"""
     ops, meta = [], []
     for name in names:
         fn = FUNCS[name]
-        for _ in range(per_fn):
-            p = fn.gen(ctx.rng)
-            if name not in ("spearman_corr",):
+        plist = (presets or {}).get(name)
+        for j in range(per_fn if plist is None else len(plist)):
+            p = fn.gen(ctx.rng) if plist is None else plist[j]
+            if p.get("fixed"):
+                pass
+            elif name not in ("spearman_corr",):
                 apply_scale(p, ctx.rng)
-            p["ret"] = ctx.rng.choice(["np", "np", "float", "int"])
-            p["intdtype"] = ctx.rng.random() < 0.25
+            if not p.get("fixed"):
+                p["ret"] = ctx.rng.choice(["np", "np", "float", "int"])
+                p["intdtype"] = ctx.rng.random() < 0.25
+                p["lab"] = ctx.rng.choice(LABEL_KINDS)
             g, gkind, gseed = mk_generator(ctx.rng)
             r, seen = fn.call(p, g)
             det = {"call": name, "params": p, "generator": gkind, "seed": gseed}
